@@ -154,13 +154,20 @@ def model_hash():
     return h.hexdigest()
 
 
-def gen_dispatch():
+def gen_dispatch(exclude=()):
     mods = []
+    left_out = {}
     for f in sorted(os.listdir(os.path.join(COQ, 'Model'))):
         if f.endswith('.v'):
             txt = open(os.path.join(COQ, 'Model', f)).read()
             for m in re.finditer(r'^Definition wire_(\d+)\b', txt, re.M):
-                mods.append((f[:-2], int(m.group(1))))
+                if f[:-2] in exclude:
+                    left_out[int(m.group(1))] = f[:-2]
+                else:
+                    mods.append((f[:-2], int(m.group(1))))
+    os.makedirs(EXTRACT_DIR, exist_ok=True)
+    with open(os.path.join(EXTRACT_DIR, 'left_out_wires.json'), 'w') as fo:
+        json.dump({str(k): v for k, v in left_out.items()}, fo)
     lines = ['(* GENERATED by harness/vh/core.py:gen_dispatch *)',
              'From Coq Require Import ZArith List.', 'Import ListNotations.', 'Open Scope Z_scope.',
              'From KV Require Import Base.Sx.']
@@ -178,36 +185,49 @@ def gen_dispatch():
 
 
 def build_model():
-    """Compile Model/*.v (not the proofs), extract to OCaml and build build/extract/driver."""
+    """Compile Model/*.v (not the proofs), extract to OCaml and build build/extract/driver.
+
+    Returns (ok, message, failed) where failed is the set of Model modules that do not compile on the current tree
+    (e.g. because a translator item they read is missing from Generated.v).  Such modules are left out of the
+    dispatcher so that the checks of properties whose cone does not contain them keep a working model binary:
+    a broken tie of one property must not raise an alarm for another."""
     os.makedirs(EXTRACT_DIR, exist_ok=True)
-    gen_dispatch()
-    stamp = os.path.join(EXTRACT_DIR, 'stamp')
-    hh = model_hash()
-    drv = os.path.join(EXTRACT_DIR, 'driver')
+    failed = set()
     ensure_makefile()
     # always make sure the model .vo files exist (a thorough-tier clean removes them); no-op when up to date
     targets = ' '.join(s[:-2] + '.vo' for s in coq_sources() if s.startswith(('Base/', 'Gen/', 'Model/')))
-    rc, out = sh('timeout 1500 make -j%d %s' % (NPROC, targets), cwd=COQ, timeout=1600)
+    rc, out = sh('timeout 1500 make -k -j%d %s' % (NPROC, targets), cwd=COQ, timeout=1600)
+    first_error = ''
     if rc:
-        return False, 'model does not compile:\n' + out[-3000:]
+        first_error = out[-3000:]
+        rc2, out2 = sh('timeout 300 make -k -n %s' % targets, cwd=COQ, timeout=330)   # what is still out of date
+        stale = set(re.findall(r'\b((?:Base|Gen|Model)/[\w\']+)\.v\b', out2))
+        if any(not m.startswith('Model/') for m in stale) or not stale:
+            return False, 'model does not compile:\n' + first_error, set(['*'])
+        failed = set(m.split('/', 1)[1] for m in stale)
+    gen_dispatch(exclude=failed)
+    stamp = os.path.join(EXTRACT_DIR, 'stamp')
+    hh = model_hash() + '|' + ','.join(sorted(failed))
+    drv = os.path.join(EXTRACT_DIR, 'driver')
+    msg = ('model files that do not compile: %s\n%s' % (', '.join(sorted(failed)), first_error)) if failed else ''
     if os.path.exists(stamp) and open(stamp).read() == hh and os.path.exists(drv) \
             and os.path.exists(os.path.join(COQ, 'Extract', 'Dispatch.vo')):
-        return True, ''
+        return True, msg, failed
     rc, out = sh('timeout 600 coqc -Q . KV Extract/Dispatch.v', cwd=COQ, timeout=700)
     if rc:
-        return False, 'dispatch does not compile:\n' + out[-3000:]
+        return False, 'dispatch does not compile:\n' + out[-3000:], failed or set(['*'])
     rc, out = sh('timeout 600 coqc -Q %s KV -o %s/Extract.vo %s/Extract/Extract.v'
                  % (COQ, EXTRACT_DIR, COQ), cwd=EXTRACT_DIR, timeout=700)
     if rc:
-        return False, 'extraction failed:\n' + out[-3000:]
+        return False, 'extraction failed:\n' + out[-3000:], failed or set(['*'])
     sh('cp %s/Extract/driver.ml %s/driver.ml' % (COQ, EXTRACT_DIR))
     rc, out = sh('ocamlfind ocamlopt -O3 -w -a model.mli model.ml driver.ml -o driver',
                  cwd=EXTRACT_DIR, timeout=600)
     if rc:
-        return False, 'ocaml build failed:\n' + out[-3000:]
+        return False, 'ocaml build failed:\n' + out[-3000:], failed or set(['*'])
     with open(stamp, 'w') as f:
         f.write(hh)
-    return True, ''
+    return True, msg, failed
 
 
 def run_model(cases, timeout=3000):
@@ -215,6 +235,14 @@ def run_model(cases, timeout=3000):
     if not cases:
         return []
     drv = os.path.join(EXTRACT_DIR, 'driver')
+    lo = os.path.join(EXTRACT_DIR, 'left_out_wires.json')
+    if os.path.exists(lo):
+        left_out = json.load(open(lo))
+        if left_out:
+            for c in cases:
+                if isinstance(c, (list, tuple)) and c and str(c[0]) in left_out:
+                    raise RuntimeError('wire %s belongs to Model/%s.v, which does not compile on this tree'
+                                       % (c[0], left_out[str(c[0])]))
     text = '\n'.join(to_sx(c) for c in cases) + '\n'
     env = dict(os.environ, OCAMLRUNPARAM='l=8G')
     p = subprocess.run(['bash', '-c', 'ulimit -s unlimited 2>/dev/null; exec %s' % drv], input=text,
@@ -561,11 +589,18 @@ def run_check(prop, tier, seed, replay=None):
         ctx.proof = pr
         if ok and not pr['ok']:
             broken.append(('proof:%s' % pr['failed'], pr['message']))
-        mok, mmsg = build_model()
-        if not mok:
+        mok, mmsg, mfailed = build_model()
+        cone_models = set(s.split('/', 1)[1][:-2] for s in dep_cone(prop) if s.startswith('Model/'))
+        cone_models |= set(getattr(mod, 'MODEL_FILES', ()))
+        if not mok or '*' in mfailed or (mfailed & cone_models):
+            # the model of THIS property (or the tool chain) is broken; model files of other properties that do not
+            # compile are left out of the driver and are for their own checks to report
             broken.append(('model-build', mmsg))
             # fall back to the last driver built from a good tree for the failing-input search
             mok = os.path.exists(os.path.join(EXTRACT_DIR, 'driver'))
+        elif mfailed:
+            log('NOTE: model files outside the cone of %s do not compile and are left out of the driver: %s'
+                % (prop, ', '.join(sorted(mfailed))))
         ctx.model_ok = mok
     if broken:
         ctx.searching = True
